@@ -35,6 +35,10 @@ def units(tier, seed):
         out += [{"stage": "pdag", "p": 6, "codes": c} for c in split_list(_g.sparse_codes(6, 4, (1, 2, 3)), 64)]
         for p in range(7, 13):
             out.append({"stage": "chainish", "p": p})
+    W = _g.WIDE_P
+    out += [{"stage": "dag", "p": W, "codes": c} for c in split_list(_g.wide_sparse_codes("dag"), 8)]
+    out += [{"stage": "pdag", "p": W, "codes": c} for c in split_list(_g.wide_sparse_codes("pdag"), 16)]
+    out.append({"stage": "dag", "p": W, "codes": [G.encode(W, ch, [0] * W) for ch in _g.wide_targeted()]})
     return out
 
 
@@ -126,7 +130,10 @@ def run_unit(unit):
     elif st == "dag":
         labs = LABS if p <= 4 else ("bin", "cancel")
         for code in unit["codes"]:
-            for lab in labs:
+            labs_here = labs
+            if p <= 4:
+                labs_here = tuple(labs) + tuple(_g.sign_labs(p, G.decode(p, code)[0], cap=64 if p <= 3 else 16))
+            for lab in labs_here:
                 res = check_dag(p, code, lab)
                 if res is None:
                     continue
@@ -175,7 +182,7 @@ def replay(kind, case):
 def describe(tier, seed):
     return {
         "technique": "exhaustive small-scope enumeration on the real code vs union graph of the brute-force equivalence class",
-        "rule": "dag_to_cpdag on every labelled DAG p<=4 under 5 weight labelings (+ 5-node DAGs with <=5 edges quick; all p=5, 6-node "
+        "rule": "dag_to_cpdag on every labelled DAG p<=4 under 5 weight labelings and +-1 sign assignments (+ wide 10-node graphs with <=2 edges and targeted colliders, + 5-node DAGs with <=5 edges quick; all p=5, 6-node "
                 "DAGs <=5 edges and chain/collider-chain DAGs to p=12 thorough) compared entry-wise with the union graph of the "
                 "brute-force class; pdag_to_cpdag on every PDAG with acyclic directed part (p<=4 + sparse p=5 quick; p=5 + sparse p=6 "
                 "thorough) incl. the ValueError when no extension exists; non-trivial: class size > 1 / >= 2 edges",
